@@ -1368,6 +1368,18 @@ def check_C15(run):
         if len(keys_seen) != 4 or len(set(keys_seen)) != 4 or r['rc'] != 0 or any(len(k_) > 32 or not k_ or any(c_ not in '0123456789abcdef' for c_ in k_) for k_ in keys_seen):
             run.violation(dict(kind='oracle-failed-on-implementation', oracle='every doer launch gets a newly generated key (two runs with both doers remote: four launches, four distinct keys of at most 32 hex digits)',
                                layer='L4', launches=len(keys_seen), distinct_keys=len(set(keys_seen)), same_key_twice=len(set(keys_seen)) < len(keys_seen), rc=r['rc'], stderr=r['err'][-500:]))
+        # ---- ... also the relaunch after a deployment that was decided late: the first doer has its key when an ssh line containing
+        # 'No such file or directory' arrives; the boss deploys and launches again: that launch must get a key of its own
+        sb.place_remote('same')
+        klog2 = os.path.join(sb.dir, 'keys2.log'); shutil.rmtree(sb.dir + '/dst', ignore_errors=True)
+        r = l4.run_cli([sb.dir + '/src/', 'localhost:' + sb.dir + '/dst/', '--deploy', 'ok'],
+                       env=sb.env({'FAKE_KEY_LOG': klog2, 'FAKE_LATE_NOISE': sb.dir + '/noise.mark:bash: /opt/motd.sh: No such file or directory'}), timeout=240)
+        keys2 = [l.strip() for l in open(klog2)] if os.path.exists(klog2) else []
+        run.case(('key-per-relaunch', len(keys2)), True, sample=dict(layer='L4', what='keys of a launch and of the relaunch after a late deployment', launches=len(keys2), distinct=len(set(keys2)), rc=r['rc']))
+        run.count(f'key-per-relaunch:launches={len(keys2)}:rc={r["rc"]}'); run.cov['traces_validated_against_impl'] += 1
+        if len(set(keys2)) != len(keys2):
+            run.violation(dict(kind='oracle-failed-on-implementation', oracle='every doer launch is given a newly generated key (also the relaunch after a deployment)', layer='L4',
+                              how='fake ssh prints "...No such file or directory" on stderr after the first doer has been given its key; --deploy ok', launches=len(keys2), distinct_keys=len(set(keys2)), rc=r['rc'], stderr=r['err'][-400:]))
         # ---- every causally possible interleaving of the four handshake lines (stdout-started before both completed lines; per-stream
         # order), with unrelated ssh output lines in between: the launch must succeed.  A relay in the fake ssh holds the real doer's
         # lines back and releases them in the given order, 60 ms apart.
@@ -2828,6 +2840,40 @@ def check_C17(run):
                                        tree=[list(map(str, e[:2])) for e in ents][:80], impl=ans[:1500]))
                     break
             if any(not v[1] for v in run.violations):
+                break
+        # the walker itself with a scripted consumer pace (slow, stalling after k entries: the bounded result queue fills while workers go on),
+        # on a tree whose sub-folders are met late (after more entries than the queue holds): order, content and termination as before
+        root = os.path.join(d, 'nested')
+        ents = [('', 'D')] + [(f'a{i}', 'D') for i in range(12)]
+        for i in range(12):
+            ents += [(f'a{i}/f{j}', 'F', b'', 10**18) for j in range(150 if not thorough else 600)]
+            ents += [(f'a{i}/z{j}', 'D') for j in range(4)]
+            ents += [(f'a{i}/z{j}/g{k_}', 'F', b'', 10**18) for j in range(4) for k_ in range(8)]
+            ents += [(f'a{i}/z{j}/y', 'D') for j in range(4)] + [(f'a{i}/z{j}/y/h', 'F', b'', 10**18) for j in range(4)]
+        l3.make_tree(root, ents)
+        want_paths = sorted((e[0], e[1]) for e in ents if e[0])
+        for threads, delay, stall_after, stall_ms in [(1, 0, 0, 0), (4, 0, 5, 300), (8, 20, 900, 400), (16, 0, 1001, 500), (2, 50, 100, 200)] + ([(t_, dl, sa, 300) for t_ in (3, 8, 32) for dl in (0, 5, 100) for sa in (1, 500, 1500)] if thorough else []):
+            env = dict(C.ENV, RJRSSYNC_VERIF_WALK_THREADS=str(threads), RJRSSYNC_VERIF_JITTER=str(rng.randint(1, 10**6)))
+            ans = C.run_harness([f'walk {C.X(root)} {delay} {stall_after} {stall_ms}'], timeout=600, env=env)[0][0]
+            run.case(('walk-paced', threads, delay, stall_after, stall_ms), True, sample=dict(layer='L3', threads=threads, consumer_delay_us=delay, stall_after=stall_after, stall_ms=stall_ms, answer=ans[:80]) if threads == 4 else None)
+            run.count(f'walk-paced:threads={threads}'); run.cov['traces_validated_against_impl'] += 1
+            why = None
+            if not ans.startswith('walk=[') or not ans.endswith('end=ok'):
+                why = f'the walk did not finish normally: {ans[-200:]}'
+            else:
+                items = [x.split(':') for x in ans[6:ans.rindex(']')].split(';') if x]
+                got = [(bytes.fromhex(h[1:] if h.startswith('x') else h).decode(), k_) for h, k_ in items]
+                seen = set()
+                for pth, k_ in got:
+                    par = pth.rsplit('/', 1)[0] if '/' in pth else None
+                    if par is not None and par not in seen:
+                        why = f'{pth!r} was listed (as no. {len(seen) + 1}) before its folder {par!r}'; break
+                    seen.add(pth)
+                if why is None and sorted(got) != want_paths:
+                    why = f'listing differs from the tree: {len(got)} listed, {len(want_paths)} expected; e.g. {sorted(set(got) ^ set(want_paths))[:3]}'
+            if why:
+                run.violation(dict(kind='oracle-failed-on-implementation', oracle='every entry exactly once, every folder before anything inside it, whatever the pace of the consumer', layer='L3', why=why,
+                                   threads=threads, consumer_delay_us=delay, stall_after=stall_after, stall_ms=stall_ms, tree='12 folders x (150 files, 4 sub-folders x (8 files, 1 sub-folder))', request_line=f'walk <root> {delay} {stall_after} {stall_ms}'))
                 break
         # read error: an unreadable folder as an unprivileged user
         root = os.path.join(d, 'unreadable'); l3.make_tree(root, [('', 'D'), ('ok', 'F', b'', 10**18), ('locked', 'D'), ('locked/inner', 'F', b'', 10**18), ('zz', 'D'), ('zz/f', 'F', b'', 10**18)])
